@@ -1324,3 +1324,101 @@ def check_duplicate_detection(fns):
                              "the map visitor of %s reads member %s without first checking whether it was already set: a duplicated member is accepted" % (msg, key),
                              {"op": "cbor_duplicates"}, lambda o: bool(o["result"].get("accepted")), None))
     return F, npaths
+
+
+# ---- C19: ceremonies sharing a store through the lock wrappers --------------------------------------
+
+def check_concurrent_counters(ga_paths, fns_tokio, ctx, solver):
+    """(1) from the MIR of get_assertion: the stored counter is read by the lookup and written back by a
+    separate update call, with at least one suspension point in between on a successful path;
+    (2) from the MIR of the lock wrappers: the lock is taken and released inside every single store call;
+    (3) z3: two such ceremonies on one credential, every order of their (atomic) read / write steps that
+    keeps each ceremony's own order - can both report the same counter?"""
+    from .executor import Executor
+    ctx.cur = "ga"
+    F = []
+    # (1)
+    gap = None
+    for p in ga_paths:
+        res = result_of(p)
+        if not res or res[0] != "Ok":
+            continue
+        find = calls(p, "CredentialStore::find_credentials")
+        upd = calls(p, "CredentialStore::update_credential")
+        if not find or not upd:
+            continue
+        ys = [i for i, e in enumerate(p.events) if e["kind"] == "yield" and find[0][0] < i < upd[0][0]]
+        # a yield belonging to the lookup's own future does not separate read from write
+        ys = [i for i in ys if p.events[i]["state"] != 3]
+        if ys:
+            gap = (p, ys)
+            break
+    if gap is None:
+        return F, 0, "no successful path suspends between the lookup and the counter update"
+    # (2)
+    per_call = {}
+    nwrap = 0
+    expect = {"save_credential": lambda o: o["result"]["saved"] and o["result"]["save_ok"], "update_credential": lambda o: o["result"]["updated"] and o["result"]["update_ok"],
+              "find_credentials": lambda o: o["result"]["found"] == 1, "get_info": lambda o: o["result"]["info"] == "forced"}
+    for lock, ty in (("mutex", "Arc<tokio::sync::Mutex<S>>"), ("rwlock", "Arc<tokio::sync::RwLock<S>>")):
+        ok = True
+        for m in ("find_credentials", "update_credential", "save_credential", "get_info"):
+            outer = [f for n, f in fns_tokio.items() if "credential_store::<impl" in n and n.endswith("::" + m) and re.match(r"fn [^(]*\(_1: &(mut )?" + re.escape(ty), f.sig)]
+            if len(outer) != 1:
+                raise Shape("cannot identify the %s wrapper's %s (%d)" % (lock, m, len(outer)))
+            blk = fns_tokio.get(outer[0].name + "::{closure#0}")
+            if blk is None:
+                raise Shape("no async block for the %s wrapper's %s" % (lock, m))
+            done = [q for q in Executor(blk).run() if q.end and q.end[0] == "return" and q.end[1][0] == "ctor" and q.end[1][1] == "Ready"]
+            if not done:
+                raise Shape("the %s wrapper's %s has no completing path" % (lock, m))
+            sc = [{"op": "wrapper_ops", "lock": lock, "rk": rk, "up": up, "uv": uv} for rk in (True, False) for up in (True, False) for uv in (False, True)]
+            bad = lambda o, m=m: m in o["result"]["deadlock"] or not expect[m](o)
+            for q in done:
+                nwrap += 1
+                lk = [(i, e) for i, e in env_calls(q) if e["callee"].endswith(("::lock", "::read", "::write"))]
+                inner = [(i, e) for i, e in env_calls(q) if e["callee"].endswith("::" + m)]
+                if len(lk) >= 2:
+                    F.append(Finding("C19", "wrapper.%s.%s.nested-lock" % (lock, m), "the %s wrapper's %s acquires the lock %d times in one call (%s): a second acquisition while the first guard is "
+                                     "alive never completes" % (lock, m, len(lk), [e["callee"] for _, e in lk]), sc, bad, q))
+                    continue
+                if len(inner) == 0:
+                    F.append(Finding("C19", "wrapper.%s.%s.not-forwarded" % (lock, m), "the %s wrapper's %s completes without calling the wrapped store" % (lock, m), sc, bad, q))
+                    continue
+                if len(lk) != 1 or len(inner) != 1 or lk[0][0] > inner[0][0]:
+                    raise Shape("unexpected shape of the %s wrapper's %s" % (lock, m))
+                e = inner[0][1]
+                for a in e["args"][1:]:
+                    a = chase(a)
+                    if not (isinstance(a, tuple) and a and a[0] in ("in", "proj", "deref", "move", "copy")):
+                        F.append(Finding("C19", "wrapper.%s.%s.argument-rewritten" % (lock, m), "the %s wrapper's %s passes %s instead of its own argument" % (lock, m, tstr(a)[:80]), sc, bad, q))
+                ret = q.end[1][2][0]
+                if not contains(ret, ("await", e["ret"])):
+                    F.append(Finding("C19", "wrapper.%s.%s.result-changed" % (lock, m), "the %s wrapper's %s does not return the wrapped store's answer (%s)" % (lock, m, tstr(ret)[:80]), sc, bad, q))
+                # the guard must not be part of what is returned (it is dropped when the call ends)
+                if contains(q.end[1], ("await", lk[0][1]["ret"])):
+                    ok = False
+        per_call[lock] = ok
+    # (3)
+    decls = ["(declare-const c (_ BitVec 32))"] + ["(declare-const %s Int)" % t for t in ("tRA", "tWA", "tRB", "tWB")] + \
+            ["(declare-const vA (_ BitVec 32))", "(declare-const vB (_ BitVec 32))"]
+    one = "(_ bv1 32)"
+    asserts = ["(distinct tRA tWA tRB tWB)", "(< tRA tWA)", "(< tRB tWB)"] + ["(and (>= %s 0) (<= %s 3))" % (t, t) for t in ("tRA", "tWA", "tRB", "tWB")] + [
+        "(= vA (ite (< tWB tRA) (bvadd vB %s) c))" % one,
+        "(= vB (ite (< tWA tRB) (bvadd vA %s) c))" % one,
+        "(bvult c #xfffffffe)",
+        "(= (bvadd vA %s) (bvadd vB %s))" % (one, one)]
+    verdict, model = solver.check(decls, asserts, want_model=True)
+    if verdict == "sat":
+        for lock, percall in per_call.items():
+            if not percall:
+                continue
+            F.append(Finding("C19", "concurrent.assert-assert.duplicate-counter.%s" % lock,
+                             "two assertions with the same credential through Arc<%s<store>> can both read counter c and both report and store c+1 "
+                             "(lookup and update are separate critical sections with a suspension point between them; schedule %s)" %
+                             ("Mutex" if lock == "mutex" else "RwLock", {k: model.get(k) for k in ("tRA", "tRB", "tWA", "tWB")}),
+                             {"op": "concurrent_assert", "counter": 5, "lock": lock},
+                             lambda o: len(o["result"]["counters"]) == 2 and None not in o["result"]["counters"] and o["result"]["counters"][0] == o["result"]["counters"][1], gap[0]))
+    elif verdict != "unsat":
+        raise Shape("solver answered %s on the interleaving query" % verdict)
+    return F, 1 + nwrap, None
